@@ -200,6 +200,7 @@ pub fn run_raw_topic(topic: &str, cx: &mut Raw) -> bool {
         "api" => api(cx),
         "ser" => ser(cx),
         "params" => params(cx),
+        "sql" => sql(cx),
         "ladder" => ladder(cx),
         _ => return false,
     }
@@ -1081,5 +1082,91 @@ pub fn params(cx: &mut Raw) {
     for i in 0..cx.n {
         let t = g.expr(&mut cx.rng, 1 + (i % 4) as u32);
         params_record(cx, &t, "generated");
+    }
+}
+
+// ---------------------------------------------------------------------------------------------
+// C20: CEL -> SQL
+
+fn sql_record(cx: &mut Raw, t: &T) {
+    use rscel_to_sql::IntoSqlBuilder;
+    let src = render(t, Parens::Min, false, &mut cx.rng);
+    let res = std::panic::catch_unwind(|| {
+        let prog = match rscel::Program::from_source(&src) {
+            Ok(p) => p,
+            Err(_) => return json!({"o":"nocompile"}),
+        };
+        match prog.ast().unwrap().into_sql_builder().and_then(|b| b.to_sql()) {
+            Ok(sql) => json!({"o":"sql","text":sql.clone(),"cps":crate::val::cps(&sql)}),
+            Err(_) => json!({"o":"unsupported"}),
+        }
+    });
+    let out = res.unwrap_or_else(|p| crate::val::crash(&crate::run::panic_msg(p)));
+    cx.emit(json!({"text":src,"want":t.to_json(),"out":out}));
+}
+
+pub fn sql(cx: &mut Raw) {
+    let strs = ["", "a", "'", "''", "\\", "\\'", "--", ";", "\n", "a'; DROP TABLE x; --", "/*", "*/", "'--", "b'; --", "é", "x''y", "$$", "\"", "' OR '1'='1", "\\\\'"];
+    let str_lit = |r: &mut Rng| lit(V::Str(r.pick_str(&strs).to_string()));
+    let atom = |r: &mut Rng| -> T {
+        match r.below(8) {
+            0 | 1 => id(r.pick_str(&["a", "b", "user_id", "x1"])),
+            2 => lit(V::Int(r.range(0, 50))),
+            3 => lit(V::Bool(r.chance(1, 2))),
+            4 => lit(V::Null),
+            5 => lit(V::Dbl(r.range(1, 40) as f64 / 4.0)),
+            _ => str_lit(r),
+        }
+    };
+    fn gen(r: &mut Rng, d: u32, atom: &dyn Fn(&mut Rng) -> T) -> T {
+        if d == 0 {
+            return atom(r);
+        }
+        match r.below(14) {
+            0 | 1 => atom(r),
+            2..=4 => bin(r.pick_str(&["+", "-", "*", "/", "%", "<", "<=", "==", "!=", ">=", ">", "&&", "||"]), gen(r, d - 1, atom), gen(r, d - 1, atom)),
+            5 => tern(gen(r, d - 1, atom), gen(r, d - 1, atom), gen(r, d - 1, atom)),
+            6 => {
+                let e = gen(r, d - 1, atom);
+                let op = if r.chance(1, 2) { '!' } else { '-' };
+                match e {
+                    T::Un { op: o2, .. } if o2 == op => e,
+                    T::Lit(V::Int(_)) | T::Lit(V::Dbl(_)) if op == '-' => un(op, 1, T::Paren(Box::new(e))),
+                    _ => un(op, 1 + r.below(2) as u32, e),
+                }
+            }
+            7 => call(r.pick_str(&["f", "lower", "my_func", "int", "string", "double", "bool", "uint", "timestamp"]), (0..r.below(4)).map(|_| gen(r, d - 1, atom)).collect()),
+            8 => mcall(gen(r, d - 1, atom), r.pick_str(&["f", "startsWith", "g"]), (0..r.below(4)).map(|_| gen(r, d - 1, atom)).collect()),
+            9 => sel(sel(id(r.pick_str(&["a", "b"])), r.pick_str(&["f", "g"])), r.pick_str(&["h", "f"])),
+            10 => idx(gen(r, d - 1, atom), gen(r, d - 1, atom)),
+            11 => T::List((0..r.below(4)).map(|_| gen(r, d - 1, atom)).collect()),
+            12 => T::Map((0..r.below(3)).map(|_| (atom(r), gen(r, d - 1, atom))).collect()),
+            _ => T::Paren(Box::new(gen(r, d - 1, atom))),
+        }
+    }
+    // every string of the alphabet alone, in a comparison, as a function argument, as a map key
+    for s in strs {
+        let l = lit(V::Str(s.to_string()));
+        for t in [l.clone(), bin("==", id("name"), l.clone()), call("f", vec![l.clone(), lit(V::Int(1))]), T::Map(vec![(l.clone(), l.clone())]), T::List(vec![l.clone(), l.clone()]), tern(id("a"), l.clone(), l.clone()), mcall(id("a"), "startsWith", vec![l.clone()])] {
+            sql_record(cx, &t);
+        }
+    }
+    // calls alone / as receiver / chained, 0..3 arguments: argument order
+    for n in 0..=3usize {
+        let args: Vec<T> = (0..n).map(|i| lit(V::Int(i as i64 + 1))).collect();
+        sql_record(cx, &call("f", args.clone()));
+        sql_record(cx, &mcall(id("x"), "f", args.clone()));
+        sql_record(cx, &mcall(mcall(id("x"), "g", args.clone()), "f", args.clone()));
+        sql_record(cx, &mcall(sel(id("x"), "y"), "f", args.clone()));
+        sql_record(cx, &bin("+", call("f", args.clone()), mcall(id("x"), "f", args.clone())));
+    }
+    // unsupported constructs
+    for t in [T::Match { e: Box::new(id("a")), cases: vec![(Pat::Any, lit(V::Int(1)))] }, T::FStr(vec![Seg::Lit("a".into()), Seg::Expr(id("x"))]), lit(V::Bytes(vec![1])), bin("+", lit(V::Bytes(vec![1])), id("a"))] {
+        sql_record(cx, &t);
+    }
+    for i in 0..cx.n {
+        let d = 1 + (i % 3) as u32;
+        let t = gen(&mut cx.rng, d, &atom);
+        sql_record(cx, &t);
     }
 }
